@@ -1,5 +1,5 @@
 (* C11 -- dilute and fill_to reach their target by adding only solvent. *)
-Require Import Base Units UnitsThm Contents Container ContainerThm ContainerThm2 Dilute DiluteThm.
+Require Import Base Units UnitsThm Contents Container ContainerThm ContainerThm2 Dilute DiluteThm Plate PlateThm PlateFill.
 
 (* dilute: whenever solvent is added, the solute's concentration measured in the unit requested equals the target; only the
    solvent increased; name, capacity kept; the invariant (volume within capacity) holds.  For every mixture (binary or not,
@@ -44,6 +44,45 @@ Theorem C11_fill_below_refused : forall cf c solvent q,
   total_in cf (cont c) (P0, qbase q) > qv q -> fill_to cf c solvent q = Err EValue.
 Proof. exact fill_below_refused. Qed.
 Print Assumptions C11_fill_below_refused.
+
+(* fill_to on a region of a plate: an accepted call leaves every addressed well at the target, having added only solvent ... *)
+Theorem C11_region_fill_post : forall cf p r s q p',
+  PInv cf p -> wf_subst s -> is_enzyme s = false -> NoDup (region_idx (ncols p) r) -> pfill_to cf p r s q = Ok p' ->
+  forall i, In i (region_idx (ncols p) r) ->
+    exists c c', nth_error (wells p) i = Some c /\ nth_error (wells p') i = Some c' /\
+      total_in cf (cont c') (P0, qbase q) == qv q /\
+      (forall k, k <> s -> get k (cont c') = get k (cont c)) /\ get s (cont c) <= get s (cont c') /\ maxv c' = maxv c.
+Proof. exact pfill_post. Qed.
+Print Assumptions C11_region_fill_post.
+(* ... and a single addressed well that cannot be filled refuses the whole call (nothing is silently left as it was) *)
+Theorem C11_region_fill_all_or_nothing : forall cf p r s q i w e,
+  NoDup (region_idx (ncols p) r) -> In i (region_idx (ncols p) r) -> nth_error (wells p) i = Some w ->
+  fill_to cf w s q = Err e -> exists e', pfill_to cf p r s q = Err e'.
+Proof. exact pfill_all_or_nothing. Qed.
+Print Assumptions C11_region_fill_all_or_nothing.
+Theorem C11_region_fill_below_one_well_refused : forall cf p r s q i w,
+  NoDup (region_idx (ncols p) r) -> In i (region_idx (ncols p) r) -> nth_error (wells p) i = Some w ->
+  total_in cf (cont w) (P0, qbase q) > qv q -> exists e', pfill_to cf p r s q = Err e'.
+Proof. exact pfill_below_one_well_refused. Qed.
+Print Assumptions C11_region_fill_below_one_well_refused.
+
+(* the hypotheses are met: a 1 x 2 plate of 200 uL wells holding 60 uL and 10 uL of water is filled to 100 uL (accepted, both wells at
+   100 uL) and refused as a whole for 50 uL (the first well holds more) *)
+Example C11_region_fill_nonvacuous :
+  let w := {| sid := 1; knd := Liquid; mw := 18; dens := 1; act := 1 |} in
+  let well := fun (i : nat) (ul : Q) => {| cname := i; cont := [(w, ul * 1000 / 18)]; vol := ul; maxv := Some 200 |} in
+  let pl := {| pname := 1; nrows := 1; ncols := 2; wells := [well 0%nat 60; well 1%nat 10] |} in
+  let r := RRect [0%nat] [0%nat; 1%nat] in
+  NoDup (region_idx (ncols pl) r) /\
+  (exists p', pfill_to default_cfg pl r w {| qval := 100; qpfx := Pu; qbase := BL |} = Ok p' /\ map vol (wells p') = [100; 100]) /\
+  (exists e, pfill_to default_cfg pl r w {| qval := 50; qpfx := Pu; qbase := BL |} = Err e).
+Proof.
+  cbv zeta. split; [|split].
+  - simpl. repeat constructor; simpl; intuition discriminate.
+  - eexists. split; vm_compute; reflexivity.
+  - eexists. vm_compute. reflexivity.
+Qed.
+Print Assumptions C11_region_fill_nonvacuous.
 
 Example C11_nonvacuous :
   let w := {| sid := 1; knd := Liquid; mw := 18; dens := 1; act := 1 |} in
